@@ -103,7 +103,9 @@ class BaseJob(ABC, Generic[T]):
         self.__pending_timer = get_pending_timer(self.__timers)
 
         if self.__stop is not None:
-            if self.__pending_timer.datetime > self.__stop:
+            # with delay=False the first execution is planned for `start` itself
+            first_exec = self.__pending_timer.datetime if delay else self.__start
+            if first_exec > self.__stop:
                 self.__mark_delete = True
 
     def __lt__(self, other: BaseJob[T]) -> bool:
